@@ -113,6 +113,8 @@ class RebuildProp(Prop):
             c["meta_src"] = "ref"           # metafile from the reference encoder, with keys this tool never writes
             c["extra_keys"] = True
         c["rel_paths"] = rng.random() < 0.25
+        c["file_arg"] = rng.random() < 0.15
+        c["nested_search"] = rng.random() < 0.15
         c.update(kw)
         return c
 
